@@ -1,6 +1,7 @@
 package main
 
 import (
+	"go/token"
 	"fmt"
 	"go/types"
 	"sort"
@@ -100,6 +101,7 @@ func runC14(e *Engine, r *Report, tier string) {
 	r.Rule("R2", "bank: SendCoins(from, to, GetAllBalances(from))", 1, "")
 	r.Rule("R3", "signature by target over (from,to); from != to; migration-record lookups first", 4, "")
 	r.Rule("R4", "all Validate before all Execute; record after", 3, "")
+	r.Rule("R7", "a party with a validator record is refused unconditionally (source and target)", 2, "validator lookups in the staking migrator's Validate")
 	r.Rule("R6", "staking key constructors receive the record's source / destination validator in the matching parameter", 6, "calls from the migrator to key constructors with valSrc / valDst parameters")
 	r.Rule("R5", "open-proposal scan covers the whole queues (unbounded range, callbacks never stop the walk without an error); proposer/deposit/vote checked for source and target", 7, "2 queue scans + 3 participation kinds")
 
@@ -650,5 +652,57 @@ func runC14(e *Engine, r *Report, tier string) {
 	}
 	if n6 == 0 {
 		r.Fail("R6", "key-constructor roles", "", "UNRESOLVED-ANCHOR: no staking key constructor with a source/destination validator parameter is called by the migrator")
+	}
+
+	// ---------- R7: neither party is a validator operator — whatever state the validator is in ----------
+	// the refusal is "a validator record exists under this address" (lookup error == nil -> error), with no further condition:
+	// a jailed or fully unbonded validator still exists, can be unjailed by its operator, and holds its self-delegation
+	n7 := 0
+	for _, fn := range e.Funcs {
+		if isAuxPkg(fnPkgPath(fn)) || !strings.Contains(fnPkgPath(fn), "x/migrate/keeper") || fn.Name() != "Validate" {
+			continue
+		}
+		allCalls(fn, func(c ssa.CallInstruction) {
+			if callName(c) != "GetValidator" {
+				return
+			}
+			cv, ok := c.(ssa.Value)
+			if !ok {
+				return
+			}
+			n7++
+			who := "source"
+			for _, a := range c.Common().Args {
+				if strings.Contains(vkey(a, 0), "P:to") {
+					who = "target"
+				}
+			}
+			ck := e.CanonFnKey(fn) + " operator-refusal " + who
+			okRef := false
+			for _, ref := range *cv.Referrers() {
+				ex, ok := ref.(*ssa.Extract)
+				if !ok || !isErrorType(ex.Type()) {
+					continue
+				}
+				for _, r2 := range *ex.Referrers() {
+					bo, ok := r2.(*ssa.BinOp)
+					if !ok || !(isNilConst(bo.X) || isNilConst(bo.Y)) {
+						continue
+					}
+					for _, r3 := range *bo.Referrers() {
+						if iff, ok := r3.(*ssa.If); ok {
+							// the branch on which the lookup succeeded must fail, on every path through it
+							if BranchFailsClean(iff, bo.Op == token.EQL, nil) {
+								okRef = true
+							}
+						}
+					}
+				}
+			}
+			r.Check(okRef, "R7", ck, e.InstrPos(c), "an existing validator record under the address refuses the migration, unconditionally", "the migration of a validator operator is refused only under a further condition on the validator (e.g. its status): an operator whose validator is unbonded or freshly created can be migrated, its self-delegation moves and it can no longer unjail or edit the validator")
+		})
+	}
+	if n7 < 2 {
+		r.Fail("R7", "operator lookups", "", fmt.Sprintf("UNRESOLVED-ANCHOR: %d validator lookups in the staking migrator's Validate (source and target expected)", n7))
 	}
 }
